@@ -107,8 +107,8 @@ fn run_case(c: Case, w: &mut Worker, tool: Option<&RefTool>) {
 
     // child-tree derivation, visible through the embedded public keys of released signatures
     for &counter in &c.child_counters {
-        let mut blob = kp.sk.clone();
-        blob[..8].copy_from_slice(&counter.to_be_bytes());
+        // the key file as the format defines it (not the library's own bytes, which were judged above)
+        let blob = hss::make_blob(counter, &c.levels, &c.seed);
         let rec = libcall::sign_bytes(c.alg, &blob, b"c08", Cb::Accept, None);
         let sig = match rec.result {
             Out::Ok(s) => s,
@@ -120,7 +120,10 @@ fn run_case(c: Case, w: &mut Worker, tool: Option<&RefTool>) {
             }
         };
         r.count("child_key_signatures", 1);
-        let b = hss::parse_blob(&cfg, &blob).unwrap();
+        let b = match hss::parse_blob(&cfg, &blob) {
+            Some(b) => b,
+            None => continue,
+        };
         let e = hss::expand(&cfg, &mut w.cache, &b);
         match hss::parse_sig(&cfg, &sig) {
             Some(lay) if lay.pubs.len() + 1 == c.levels.len() => {
